@@ -275,6 +275,9 @@ func checkC01(P *Prog, r *Result) {
 	// string of white space only, when parsing; the zero value when validating) - C04's formula and binding rules
 	shareRule(P, r, checkC04, "C04/zero-predicate-formula", nil, "C01/required-means-present", 1)
 	shareRule(P, r, checkC04, "C04/zero-predicate-binding", nil, "C01/required-uses-mode-predicate", 5)
+	// no issue means the destination was produced by the node's own pipeline: an issue swallowed by Catch goes with the
+	// catch value stored - else Parse reports success and the destination holds an untested zero (C05's rule)
+	shareRule(P, r, checkC05, "C05/swallow-implies-catch-store", nil, "C01/swallowed-issue-has-its-catch-value", 1)
 	r.Extra["schema_ctx_constructors"] = len(ca.ctors)
 	if len(ca.ctors) < 2 {
 		r.broken("vacuous: %d SchemaCtx constructors recognised (floor 2)", len(ca.ctors))
@@ -866,6 +869,13 @@ func checkC05(P *Prog, r *Result) {
 		P.checkSwallow(r, pl)
 	}
 	r.floor("C05/swallow-implies-catch-store", 1)
+	// a caught issue leaves no trace: the library's only release of an issue during an execution is the swallow, so a
+	// recycled issue whose fields are not all re-written carries the catching node's code and message to a sibling or to
+	// the enclosing struct (C07's rule on ZogIssue)
+	shareRule(P, r, checkC07, "C07/reinit", func(o Obligation) bool { return strings.Contains(o.Construct, "#zog/internals.ZogIssue.") }, "C05/caught-issue-leaves-no-trace", 0)
+	// "whenever a coercion failure happens its destination is exactly v": catch comes before any other way out of a
+	// failure - a Default tried first on a coercion error wins over the Catch (C04's decision rule)
+	shareRule(P, r, checkC04, "C04/decision-shape", nil, "C05/catch-before-any-other-fallback", 4)
 
 	// issues-inside-catch-scope: a kind that can hold a catch value arms its context (CanCatch = catch != nil) before
 	// it can raise any failure of its own: on every decision path of its node methods (pipeline entered) no issue is
